@@ -346,27 +346,30 @@ void apply(int op, uint8_t a, uint8_t b, int ns, int nw, int nu)
         TRACE("U%d get", u);
         break;
     case U_RELEASE: {
+        // both out-parameters may be NULL (header): the caller then already knows the clear function
+        bool want_f = !(b & 2), want_pv = !(b & 4);
         cstl_xtor_func_t *f = (cstl_xtor_func_t *)0x1;
         void *pv = (void *)0x1, *p;
-        LIB(p = cstl_unique_ptr_release(&UP[u], &f, &pv));
-        TRACE("U%d release -> %s", u, p ? "pointer" : "NULL");
+        LIB(p = cstl_unique_ptr_release(&UP[u], want_f ? &f : nullptr, want_pv ? &pv : nullptr));
+        TRACE("U%d release(%s, %s) -> %s", u, want_f ? "&clr" : "NULL", want_pv ? "&priv" : "NULL", p ? "pointer" : "NULL");
+        if (!want_f || !want_pv) CNT("class.release.null_out_param");
         if (un[u] < 0) {
             CHECK(p == nullptr, CL("release"), "release of the empty U%d returned %p", u, p);
+            compare_events("unique_release");
         } else {
             UAlloc &x = UA[un[u]];
             CHECK(p == x.ptr, CL("release"), "release returned %p, U%d managed %p", p, u, x.ptr);
-            CHECK(f == (x.has_clr ? clr_cb : nullptr) && (!x.has_clr || pv == x.priv), CL("release"), "release did not hand back the clear function and its priv");
-            compare_events("unique_release");       // releasing frees nothing
-            begin_op();
+            if (want_f) CHECK(f == (x.has_clr ? clr_cb : nullptr), CL("release"), "release did not hand back the clear function");
+            if (want_pv && x.has_clr) CHECK(pv == x.priv, CL("release"), "release did not hand back the clear function's priv");
+            compare_events("unique_release");       // releasing clears and frees nothing
             // as documented the caller now runs the clear function and frees the memory
-            if (f) f(p, pv);
-            LIB(free(p));           // counted by the interposer as a library-side free of a library block
-            g_pred.clear();
+            begin_op();
+            if (x.has_clr) clr_cb(p, x.priv);
+            LIB(free(p));           // the interposer sees the release of a block the library allocated
             x.freed = true;
             un[u] = -1;
             begin_op();
         }
-        compare_events("unique_release");
         break;
     }
     case U_SWAP:
@@ -520,6 +523,7 @@ bool vf_scope(const std::string &name, Scope &s)
     for (int u = 0; u < nu; u++) {
         s.alphabet.push_back({U_ALLOC, (uint8_t)u, 1});
         s.alphabet.push_back({U_RELEASE, (uint8_t)u, 0});
+        s.alphabet.push_back({U_RELEASE, (uint8_t)u, 6});   // both out-parameters NULL
         s.alphabet.push_back({U_RESET, (uint8_t)u, 0});
     }
     if (!strncmp(mode, "seq", 3)) { s.prune = false; s.max_depth = atoi(mode + 3); }
